@@ -203,10 +203,23 @@ def run(chk, repo):
     chk.ob('C12.b', 'is_valid = same python and biopython and recorded moPepGen >= minimal', iv.where, ok,
            f"is_valid can return True without {sorted(want_iv - lits)}", key=iv.qual, fn=iv.qual)
     mv = repo.func('version:MetaVersion.is_valid_mpg_version')
-    t = unparse(mv.node)
-    chk.ob('C12.b', 'recorded moPepGen version compared >= MINIMAL_VERSION', mv.where,
-           'return that >= minimal' in t and 'minimal = self.get_semver(MINIMAL_VERSION)' in t and 'that = self.get_semver(version)' in t,
-           'minimal-version comparison altered', key=mv.qual, fn=mv.qual)
+    # value based: the returned comparison, with locals expanded, is get_semver(<given version>) >= get_semver(MINIMAL_VERSION)
+    rets_mv = [n for n in ast.walk(mv.node) if isinstance(n, ast.Return)]
+    ok_mv = False
+    got_mv = None
+    if len(rets_mv) == 1 and rets_mv[0].value is not None:
+        e_mv = sem.expand_names(mv.node, rets_mv[0], rets_mv[0].value, allow_calls=('get_semver',))
+        got_mv = re.sub(r'\b(?:self|MetaVersion)\.get_semver', 'get_semver', unparse(e_mv))
+        vp = [a.arg for a in mv.node.args.args if a.arg != 'self']
+        ok_mv = len(vp) == 1 and got_mv in (f'get_semver({vp[0]}) >= get_semver(MINIMAL_VERSION)', f'get_semver(MINIMAL_VERSION) <= get_semver({vp[0]})')
+        if not ok_mv and len(vp) == 1 and isinstance(e_mv, ast.Compare) and len(e_mv.ops) == 1 and isinstance(e_mv.ops[0], (ast.GtE, ast.LtE)):
+            # the same transformation T on both sides (get_semver inlined): T(version) >= T(MINIMAL_VERSION)
+            big, small = (e_mv.left, e_mv.comparators[0]) if isinstance(e_mv.ops[0], ast.GtE) else (e_mv.comparators[0], e_mv.left)
+            tb = re.sub(r'\b' + re.escape(vp[0]) + r'\b', '@', unparse(big))
+            ts = re.sub(r'\bMINIMAL_VERSION\b', '@', unparse(small))
+            ok_mv = tb == ts and '@' in tb and 'MINIMAL_VERSION' not in tb and not re.search(r'\b' + re.escape(vp[0]) + r'\b', ts)
+    chk.ob('C12.b', 'recorded moPepGen version compared >= MINIMAL_VERSION', mv.where, ok_mv,
+           f"minimal-version comparison altered: returns {got_mv}", key=mv.qual, fn=mv.qual)
 
     # ------------------------------------------------------------------ c
     chk.rule('C12.c', 'fresh registration index; duplicate raises; save registers unless overriding', 4)
@@ -219,33 +232,52 @@ def run(chk, repo):
     dup_known = all(sem.known(fx, 'not self.get_canonical_pool(cleavage_params)') is True for _st, fx in ctor_sites + app_sites)
     has_raise = any(isinstance(n, ast.Raise) for n in ast.walk(nrg))
 
+    # E9 partial evaluation of the registration: what index and file name does the new entry get (a) when pools exist, (b) when none does
+    from sa.peval import PEval, show as _show12
     def gen_norm(t_):
-        return re.sub(r'\b(\w+)\.index for \1 in', '_.index for _ in', t_)
-    idx_txt = None
-    fn_txt = None
-    if len(ctor_sites) == 1:
-        c0 = sem.calls_in_stmt(ctor_sites[0][0], 'CanonicalPoolMetadata')[0]
-        ie = kwarg(c0, 'index')
-        if ie is not None:
-            idx_txt = gen_norm(unparse(sem.expand_names(nrg, ctor_sites[0][0], ie, chains=chains)))
-        fe = kwarg(c0, 'filename')
-        if fe is not None:
-            fe = sem.expand_names(nrg, ctor_sites[0][0], fe, chains=chains)
-            if isinstance(fe, ast.JoinedStr):
-                fn_txt = gen_norm(fstr(fe))
-            elif isinstance(fe, ast.Call) and call_name(fe) == 'format' and isinstance(fe.func.value, ast.Constant) and isinstance(fe.func.value.value, str):
-                tpl = fe.func.value.value
-                for kw in fe.keywords:
-                    tpl = re.sub(r'\{' + re.escape(kw.arg) + r'(:[^}]*)?\}', lambda m_: '{' + gen_norm(unparse(kw.value)) + (m_.group(1) or '') + '}', tpl)
-                fn_txt = tpl
-    want_idx = 'max((_.index for _ in self.canonical_pools)) + 1 if self.canonical_pools else 1'
-    ok = dup_known and has_raise and idx_txt == want_idx
-    chk.ob('C12.c', 'register: raise if the parameters exist; index = max+1', rg.where, ok,
-           f"registration logic altered: index = {idx_txt}; duplicate known absent at registration: {dup_known}", key=rg.qual + '::fresh-index', fn=rg.qual)
-    ok = len(ctor_sites) == 1 and fn_txt == 'canonical_peptides_{' + want_idx + ':03}.pkl' and len(app_sites) == 1 and \
+        t_ = re.sub(r'\b(\w+)\.index for \1 in', '_.index for _ in', t_)
+        t_ = re.sub(r'max\(\[(.*?)\]\)', r'max(\1)', t_)
+        t_ = re.sub(r'max\(\((.*?)\)\)', r'max(\1)', t_)
+        return t_
+    MAXP1 = 'max(_.index for _ in self.canonical_pools) + 1'
+    pe12 = PEval(record=('CanonicalPoolMetadata',))
+    outs12 = [o for o in pe12.run(rg.node, {}) if o.kind == 'return']
+    seen12 = []
+    ok_idx = ok_fn = bool(outs12)
+    for o in outs12:
+        cs_ = [c for c in o.calls if c['name'] == 'CanonicalPoolMetadata']
+        if len(cs_) != 1:
+            ok_idx = ok_fn = False
+            continue
+        kw = cs_[0]['kwargs']
+        idx_v, fn_v = kw.get('index'), kw.get('filename')
+        idx_t, fn_t = gen_norm(_show12(idx_v)), gen_norm(_show12(fn_v))
+        pools = o.assumed.get('self.canonical_pools')
+        seen12.append((pools, idx_t, fn_t))
+        if len(outs12) == 1:
+            good_i = idx_t == MAXP1 + ' if self.canonical_pools else 1'
+        else:
+            # the two cases were split by a statement-level test: one outcome starts at 1, the other continues after the maximum
+            good_i = idx_v == 1 or idx_t == MAXP1
+        ok_idx = ok_idx and good_i
+        if isinstance(fn_v, str):
+            good_f = idx_v == 1 and fn_v == 'canonical_peptides_001.pkl'
+        else:
+            m1 = re.match(r"^f'canonical_peptides_\{(.*):03\}\.pkl'$", fn_t)
+            m2 = re.match(r"^'canonical_peptides_\{(?:0)?:03\}\.pkl'\.format\((.*)\)$", fn_t)
+            m3 = re.match(r"^'canonical_peptides_%03d\.pkl' % \(?(.*?),?\)?$", fn_t)
+            m4 = re.match(r"^'canonical_peptides_\{(\w+):03\}\.pkl'\.format\(\1=(.*)\)$", fn_t)
+            arg = (m1 or m2 or m3).group(1) if (m1 or m2 or m3) else (m4.group(2) if m4 else None)
+            good_f = arg is not None and arg == idx_t
+        ok_fn = ok_fn and good_f
+    app_ok = len(app_sites) == 1 and len(ctor_sites) == 1 and \
         unparse(kwarg(sem.calls_in_stmt(ctor_sites[0][0], 'CanonicalPoolMetadata')[0], 'cleavage_params')) == 'cleavage_params'
-    chk.ob('C12.c', 'file name derived from the fresh index; entry appended', rg.where, ok,
-           f"pool file name is not derived from the fresh index / entry not appended (another entry's file can be overwritten): file name '{fn_txt}'",
+    if len(outs12) > 1:
+        ok_idx = ok_idx and sorted(x[1] for x in seen12) == sorted(['1', MAXP1]) and len(outs12) == 2
+    chk.ob('C12.c', 'register: raise if the parameters exist; index = max+1', rg.where, dup_known and has_raise and ok_idx,
+           f"registration logic altered: (pools exist?, index, file name) = {seen12}; duplicate known absent at registration: {dup_known}", key=rg.qual + '::fresh-index', fn=rg.qual)
+    chk.ob('C12.c', 'file name derived from the fresh index; entry appended', rg.where, ok_fn and app_ok,
+           f"pool file name is not derived from the fresh index / entry not appended (another entry's file can be overwritten): {seen12}",
            key=rg.qual + '::filename', fn=rg.qual)
     sv = repo.func(IDX + 'IndexDir.save_canonical_peptides')
     chk.uses(sv)
